@@ -328,7 +328,16 @@ int main(int argc, char **argv) {
                     for (int y = 0; y < Hh; y++) hh = fnv(io.luma + (size_t)y * io.y_stride * bps, (size_t)W * bps, hh);
                     for (int y = 0; y < Hh / 2; y++) hh = fnv(io.cb + (size_t)y * io.cb_stride * bps, (size_t)(W / 2) * bps, hh);
                     for (int y = 0; y < Hh / 2; y++) hh = fnv(io.cr + (size_t)y * io.cr_stride * bps, (size_t)(W / 2) * bps, hh);
-                    fprintf(H, "DEC %d %d %d %016llx %d\n", ndec, W, Hh, hh, k);
+                    fprintf(H, "DEC %d %d %d %016llx %d", ndec, W, Hh, hh, k);
+                    if (stat && bits == 8 && ndec < 4096 && sent_copy[ndec]) {   /* SSE of the picture decoded from the stream against the submitted one (display order) */
+                        unsigned long long ds[3] = {0, 0, 0}; size_t off = 0;
+                        const uint8_t *pl[3] = {io.luma, io.cb, io.cr}; const size_t st_[3] = {io.y_stride, io.cb_stride, io.cr_stride};
+                        for (int p_ = 0; p_ < 3; p_++) { int pw = p_ ? W / 2 : W, ph = p_ ? Hh / 2 : Hh;
+                            for (int y = 0; y < ph; y++) for (int x = 0; x < pw; x++) { long d = (long)sent_copy[ndec][off + (size_t)y * pw + x] - (long)pl[p_][(size_t)y * st_[p_] + x]; ds[p_] += (unsigned long long)(d * d); }
+                            off += (size_t)pw * ph; }
+                        fprintf(H, " dsse=%llu,%llu,%llu", ds[0], ds[1], ds[2]);
+                    }
+                    fprintf(H, "\n");
                     if (k < 100000 && !pk_first_dec[k]) pk_first_dec[k] = ndec + 1;
                     if (dumpdec) { snprintf(fn, sizeof fn, "%s.dec.%d.yuv", outp, ndec); FILE *f = fopen(fn, "wb");
                         for (int y = 0; y < Hh; y++) fwrite(io.luma + (size_t)y * io.y_stride * bps, 1, (size_t)W * bps, f);
